@@ -159,7 +159,13 @@ Section Poison.
   Inductive hact :=
   | ASetMeta (k v : N)             (* msg.Metadata.Set(k, v), allocating the map when nil *)
   | ASetPayload (p : list N)       (* msg.Payload = p *)
-  | ADropCtx.                      (* msg.SetContext(context.Background()) *)
+  | ADropCtx                       (* msg.SetContext(context.Background()) *)
+  | ACancelCtx.                    (* the message's context ends while the handler runs: the handler
+                                      cancels it (msg.SetContext of a cancelled child) or it is
+                                      cancelled / times out from outside.  poison.go never looks at
+                                      Done()/Err(): only the VALUES are read, and they survive.
+                                      A context that is already cancelled or past its deadline when
+                                      the message is delivered is likewise not an input of the model. *)
   Inductive hout :=
   | HRet (outs : list M)
   | HFail (e : err) (outs : list M)
@@ -174,7 +180,11 @@ Section Poison.
             (Some (mset k v (match pm_meta m with Some md => md | None => [] end))), c)
     | ASetPayload p => (PM (pm_uuid m) p (pm_meta m), c)
     | ADropCtx => (m, no_ctx)
+    | ACancelCtx => (m, c)
     end.
+  Definition is_cancel (a : hact) : bool := match a with ACancelCtx => true | _ => false end.
+  (** the script with every context cancellation removed *)
+  Definition strip_cancel (acts : list hact) : list hact := filter (fun a => negb (is_cancel a)) acts.
   Definition run_acts (acts : list hact) (s : pmsg * rctx) : pmsg * rctx := fold_left act1 acts s.
 
   (** PoisonQueue / PoisonQueueWithFilter: [pq_filter = None] is the built-in accept-all *)
